@@ -258,7 +258,7 @@ Vss_Datatype_t Avtp_Vss_GetDatatype(Avtp_Vss_t* pdu);
 uint64_t Avtp_Vss_GetMsgTimestamp(Avtp_Vss_t* pdu);
 void Avtp_Vss_GetVssPath(Avtp_Vss_t* pdu, VssPath_t* val);
 void Avtp_Vss_GetVssData(Avtp_Vss_t* pdu, VssData_t* val);
-uint8_t Avtp_Vss_GetVSSDataStringArrayLength(VssDataStringArray_t* str_array);
+uint16_t Avtp_Vss_GetVSSDataStringArrayLength(VssDataStringArray_t* str_array);
 uint16_t Avtp_Vss_CalcVssPathLength (Avtp_Vss_t* pdu);
 void Avtp_Vss_DeserializeStringArray(VssDataStringArray_t* vss_data_string_array,
                                      VssDataString_t* strings[],
